@@ -300,6 +300,60 @@ class Seq:
             if res is True:
                 self.mon.v("submission-reported-success-but-not-pooled", name, dict(self.w))
 
+    def submit_tx(self, t, name):
+        """API submission of a given transaction with the admission oracle (used by the small-scope lane)"""
+        c, world = self.mon.c, self.world
+        head, pool = self.snapshot()
+        c["operations"] += 1
+        c["by_submission"][name] = c["by_submission"].get(name, 0) + 1
+        led = world.ledger(head)
+        codes = ref.tx_codes_by_itself(t) | ref.tx_codes_in_ledger(t, led)
+        conflict = bool(set(t.refs()) & {r for x in pool for r in x.refs()})
+        self.ops.append(["submit", "api", name, t.enc().hex()])
+        c["submissions_api"] += 1
+        try:
+            res = self.sn.cm.add_transaction_to_pool(bridge.rtx_to_real(t))
+        except Exception:
+            res = None
+            c["submission_raised"] += 1
+        _h2, pool2 = self.check_invariant("submission (%s)" % name)
+        ids_before, ids_after = [x.id() for x in pool], [x.id() for x in pool2]
+        admitted = ids_after == ids_before + [t.id()] and t.id() not in ids_before
+        if admitted:
+            c["admitted"] += 1
+            if codes or conflict:
+                self.mon.v("invalid-or-conflicting-transaction-admitted:" + ("conflict" if conflict else "+".join(sorted(codes))),
+                           "%s: admitted (reference: %s, conflict: %s)" % (name, sorted(codes), conflict), dict(self.w))
+        else:
+            c["refused"] += 1
+            if name != "resubmit-refused":
+                self.refused.append((t, name))
+            if ids_after != ids_before:
+                self.mon.v("refused-submission-changed-pool", "%s: pool changed although the transaction was not admitted" % name, dict(self.w))
+            if res is True:
+                self.mon.v("submission-reported-success-but-not-pooled", name, dict(self.w))
+
+    def after_head_change(self, head, pool, mode):
+        c, world = self.mon.c, self.world
+        c["operations"] += 1
+        h2, pool2 = self.check_invariant("head change (%s)" % mode)
+        if h2 != head:
+            c["head_changes"] += 1
+            c["head_changes_by_state_replacement"] += 1
+            if h2 not in set(world.chain.ancestors(head)) and head not in set(world.chain.ancestors(h2)):
+                c["fork_switches"] += 1
+            led2 = world.ledger(h2)
+            exp = [t.id() for t in pool if not (ref.tx_codes_in_ledger(t, led2) | ref.tx_codes_by_itself(t))]
+            got = [t.id() for t in pool2]
+            c["evictions"] += len(pool) - len(exp)
+            c["survivors_after_head_change"] += len(exp)
+            if got != exp:
+                missing = [x for x in exp if x not in got]
+                extra = [x for x in got if x not in exp]
+                key = "still-valid-transaction-evicted" if missing and not extra else "pool-after-head-change-wrong"
+                self.mon.v(key, "after head change (%s): pool has %d entries; %d of the %d previous ones are still valid; %d valid "
+                           "ones missing, %d unexpected" % (mode, len(got), len(exp), len(pool), len(missing), len(extra)), dict(self.w))
+
     def head_change(self):
         mon, c, world, rng, sn = self.mon, self.mon.c, self.world, self.rng, self.sn
         head, pool = self.snapshot()
@@ -391,6 +445,113 @@ class Seq:
                 name = "valid" if r < 0.55 else rng.choice(names + ["resubmit-refused", "resubmit-refused"])
                 self.submit(name, "api" if rng.random() < 0.5 else "wire")
         self.sn.close()
+
+
+class MiniNode:
+    """a real ChainManager on a stub peer (no sockets, no store): enough for API submissions and state replacement"""
+
+    def __init__(self, world):
+        import logging
+        import skepticoin.networking.local_peer as lpm     # noqa (import order)
+        from skepticoin.networking.manager import ChainManager
+
+        class Disk:
+            def save_transaction_for_debugging(self, t):
+                pass
+
+        class Peer:
+            logger = logging.getLogger("skv.mini")
+            disk_interface = Disk()
+        self.cm = ChainManager(Peer(), 0)
+        self.cm.set_coinstate(world.cs)
+
+    def escaped(self):
+        return []
+
+
+SMALL = ["submit-spend-of-trunk-output", "submit-spend-of-branch-output", "submit-conflicting", "resubmit-refused",
+         "extend-confirming-pooled", "extend-conflicting-with-pooled", "extend-empty", "switch-to-other-tip", "other-fork-overtakes"]
+
+
+def small_scope(mon, rng, length, shard, nshard):
+    """EVERY sequence of `length` operations from SMALL on a small forked world, through the pool API and the state setter"""
+    import itertools
+    base = gen.World(rng, nkeys=4)
+    base.reuse_pending = False
+    base.grow(3, rng, tx_prob=0.0, bias="linear")
+    trunk_tip = base.cs.current_chain_hash
+    trunk = set(base.chain.ancestors(trunk_tip))
+    # two branches off the trunk: A (2 blocks, head) and B (1 block)
+    for n, par in ((2, trunk_tip), (1, trunk_tip)):
+        pid = par
+        for _ in range(n):
+            rb, real = base.assemble(pid, [], base.chain.blocks[pid].ts + 60, base.keys[_ % 4][1], route="ref")
+            pid = base.accept(rb, real, validate=False)
+    idx = 0
+    for seq_ev in itertools.product(range(len(SMALL)), repeat=length):
+        idx += 1
+        if idx % nshard != shard:
+            continue
+        seq = Seq.__new__(Seq)
+        seq.mon, seq.rng = mon, rng
+        seq.world = world = base.fork()
+        seq.sn = MiniNode(world)
+        seq.ops, seq.refused = [], []
+        seq.w = {"lane": "small-scope", "sequence": [SMALL[e] for e in seq_ev], "chain": gen.blocks_hex(world, world.chain.order[1:]),
+                 "ops": seq.ops}
+        mon.c["small_scope_sequences"] = mon.c.get("small_scope_sequences", 0) + 1
+        cm = seq.sn.cm
+        for e in seq_ev:
+            name = SMALL[e]
+            head, pool = seq.snapshot()
+            led = world.ledger(head)
+            used = {r for t in pool for r in t.refs()}
+            own = [x for x in world.owned(head, used) if x[1] >= 2]
+            trunk_ids = {t.id() for b in trunk for t in world.chain.blocks[b].txs}
+            if name.startswith("submit-spend-of"):
+                want_trunk = "trunk" in name
+                cands = [x for x in own if (x[0][0] in trunk_ids) == want_trunk]
+                if not cands:
+                    continue
+                t = world.make_rtx(head, rng, spend=[rng.choice(cands)], signer="ref")
+                seq.submit_tx(t, name)
+            elif name == "submit-conflicting":
+                t = t_conflicting(world, head, pool, rng)
+                if t is not None:
+                    seq.submit_tx(t, name)
+            elif name == "resubmit-refused":
+                if seq.refused:
+                    seq.submit_tx(seq.refused[-1][0], name)
+            elif name.startswith("extend"):
+                rtxs = []
+                if name == "extend-confirming-pooled" and pool:
+                    rtxs = [pool[0]]
+                elif name == "extend-conflicting-with-pooled" and pool:
+                    t = t_conflicting(world, head, [pool[0]], rng)
+                    rtxs = [t] if t is not None else []
+                parent = world.chain.blocks[head]
+                rb, real = world.assemble(head, rtxs, parent.ts + 30, world.keys[0][1], route="ref")
+                world.cs = world.state_at(head).add_block(real, rb.ts)
+                world.accept(rb, real, cs=world.cs)
+                seq.ops.append(["set-coinstate", rb.id().hex()])
+                cm.set_coinstate(world.cs)
+                seq.after_head_change(head, pool, name)
+            else:
+                tips = [t for t in sorted(world.cs.heads.keys()) if t != head and head not in world.chain.ancestors(t)]
+                if not tips:
+                    continue
+                tip = max(tips, key=lambda t: world.chain.blocks[t].height)
+                if name == "other-fork-overtakes":
+                    cur = tip
+                    while world.chain.blocks[cur].height <= world.chain.blocks[head].height:
+                        parent = world.chain.blocks[cur]
+                        rb, real = world.assemble(cur, [], parent.ts + 30, world.keys[1][1], route="ref")
+                        world.cs = world.cs.add_block_no_validation(real)
+                        cur = world.accept(rb, real, cs=world.cs)
+                    tip = cur
+                seq.ops.append(["set-coinstate", tip.hex()])
+                cm.set_coinstate(world.state_at(tip))
+                seq.after_head_change(head, pool, name)
 
 
 def threads_lane(mon, rng, seconds):
@@ -525,6 +686,7 @@ def run_shard(spec):
             if len(mon.samples) < 1:
                 mon.samples.append({"ops": [(o[0], o[1] if o[0] == "submit" else "", o[2] if o[0] == "submit" else "")
                                             for o in seq.ops][:30]})
+        small_scope(mon, rng, 4 if quick else 5, spec["shard"] % 14, 14)
     return {"evaluations": mon.c["operations"], "digests": sorted(mon.digests), "violations": mon.viol, "counters": mon.c,
             "samples": mon.samples}
 
@@ -539,6 +701,7 @@ def finalize(m, tier):
               ("thread_snapshots", c.get("thread_snapshots", 0), 200)]
     for name in SUBMISSIONS:
         floors.append(("submission " + name, c.get("by_submission", {}).get(name, 0), 10))
+    floors.append(("small_scope_sequences", c.get("small_scope_sequences", 0), 9 ** 4))
     return {
         "rule": "operation sequences (50-300 ops) on one real node: submissions of 16 transaction classes via the pool API "
                 "and via the wire, interleaved with head changes (extension confirming / conflicting with pooled transactions, "
